@@ -3,7 +3,7 @@
   and `node_action`, `split_whitespace`/`join`, the two loops of `clean_element_attributes`.
   Core Lean only.
 -/
-import RumaModel.Spec.HtmlPolicy
+import RumaModel.Lemmas.HtmlPolicy
 namespace Ruma.Lemmas.Html
 open Ruma Ruma.Html Ruma.Spec.HtmlPolicy
 
@@ -90,7 +90,8 @@ theorem attrSchemes_empty (x : SchemeCtx) (h : x.empty = true) (a : Str) : attrS
 
 theorem denyCheck_false (c : Cfg) (n : Str) (as : List Attr) :
     denyCheck c n as = false ↔ ∀ a ∈ as, denied c n a.name a.value = false := by
-  unfold denyCheck denied
+  unfold denyCheck
+  simp only [denied_eq_model]
   cases h : c.denySchemes.bind (mapGet · n) with
   | none => simp [schemesHit]
   | some deny => simp only [denyLoop_false, Option.bind_some]
@@ -98,7 +99,8 @@ theorem denyCheck_false (c : Cfg) (n : Str) (as : List Attr) :
 theorem schemeCheck_none (L : Lists) (c : Cfg) (n : Str) (as : List Attr) :
     schemeCheck L c n as = .none ↔
       ∀ a ∈ as, schemesPass (schemeList L c n a.name) a.value = true := by
-  unfold schemeCheck schemeList
+  unfold schemeCheck
+  simp only [schemeList_eq_model]
   by_cases h1 : (c.allowSchemes.isNone && !c.useStrict) = true
   · simp [h1, schemesPass]
   · simp only [h1, if_false, Bool.false_eq_true]
@@ -119,7 +121,7 @@ theorem schemeCheck_ne_remove (L : Lists) (c : Cfg) (n : Str) (as : List Attr) :
 
 theorem valueOk_iff (L : Lists) (c : Cfg) (n a v : Str) :
     valueOk L c n a v = true ↔ denied c n a v = false ∧ schemesPass (schemeList L c n a) v = true := by
-  simp [valueOk]
+  simp [valueOk_eq_model]
 
 /-- `node_action` returns `None` exactly when the element is not removed, not ignored by name,
 allowed, and every attribute carries an acceptable value. -/
